@@ -43,6 +43,15 @@ def oracle_pair(res, case, t1, t2, s1, s2, kw1, kw2, out):
         strict = s1 < full[1]
         if strict != s1.is_prefix(full[1], strict=True) or (full[1] > s1) != strict:
             res.fail('< / > differ from strict is_prefix', case)
+        # the functional forms
+        for st in (False, True):
+            want = s1.is_prefix(full[1], strict=st)
+            if optree.treespec_is_prefix(s1, full[1], strict=st) != want or optree.treespec_is_suffix(full[1], s1, strict=st) != want \
+                    or full[1].is_suffix(s1, strict=st) != want:
+                res.fail('treespec_is_prefix / treespec_is_suffix / is_suffix differ from is_prefix', case, f'strict={st}')
+            back = full[1].is_prefix(s1, strict=st)
+            if optree.treespec_is_prefix(full[1], s1, strict=st) != back or optree.treespec_is_suffix(s1, full[1], strict=st) != back:
+                res.fail('treespec_is_prefix / treespec_is_suffix differ from is_prefix (converse direction)', case, f'strict={st}')
         if p:
             # a < b iff b has a non-leaf node where a has a leaf
             subs = u[1]
